@@ -136,6 +136,19 @@ def run(ctx):
             direct.append(("%s %s %s" % (str(h), str(nd), w), 1 if f(h, nd) else 0))
             hs, ns = "".join("ab"[x - 1] for x in h), "".join("ab"[x - 1] for x in nd)
             direct.append(('"%s" "%s" %s' % (hs, ns, w), 1 if f(h, nd) else 0))
+    # the same over alphabets whose two symbols carry the same number in different constant domains (elements are
+    # the same when `==` says so, not when their numbers agree), and with the needle written in another radix
+    for (x, y), (x2, y2) in ((("1", "true"), ("1", "true")), (("DW_AT_sibling", "DW_TAG_array_type"), ("DW_AT_sibling", "DW_TAG_array_type")),
+                             (("1", "DW_AT_sibling"), ("1", "DW_AT_sibling")), (("T_CONST", "T_CONST value"), ("T_CONST", "T_CONST value")),
+                             (("1", "2"), ("0x1", "0b10")), (("DW_FORM_addr", "STT_OBJECT"), ("DW_FORM_addr", "STT_OBJECT")), (('"a"', "1"), ('"a"', "1"))):
+        for h, nd in seqpairs:
+            if len(h) > 3 or len(nd) > 2 or (quick and (len(h) + len(nd)) % 2 == 0 and len(nd) != 1):
+                continue
+            for w, f in (("?find", contains), ("?starts", lambda a, b: a[:len(b)] == b), ("?ends", lambda a, b: len(b) == 0 or a[-len(b):] == b)):
+                hq = "[%s]" % ", ".join((x, y)[k - 1] for k in h)
+                nq = "[%s]" % ", ".join((x2, y2)[k - 1] for k in nd)
+                direct.append(("%s %s %s" % (hq, nq, w), 1 if f(h, nd) else 0))
+                direct.append(("%s %s !%s" % (hq, nq, w[1:]), 0 if f(h, nd) else 1))
     progs = list(dict.fromkeys(progs))
     stats = {"evaluations": 0, "disagreements": 0, "results_hist": {}, "nontrivial": set()}
     for k in range(0, len(progs), 3000):
@@ -163,11 +176,19 @@ def run(ctx):
     # history independence, checked on the implementation directly
     groups = {}
     rr2 = zw.run_cases([zw.enc(q) for q in progs[-300:]])
+    # constants that come out of DWARF / ELF data (location operations are created "brief", names of tags,
+    # attributes, forms, symbol types; offsets, addresses): the radix words and %-directives give what they
+    # give for the plain number
+    from vlib import dwconst
+    dwbad = []
+    stats["evaluations"] += dwconst.check_files(dwconst.default_files(ctx.tier == "quick"), lambda what, case: dwbad.append((what, case)), ctx.tier == "quick")
+    for what, case in dwbad[:4]:
+        ctx.violation(what, case)
     common.report_broken_obligations(ctx, oblig, bool(ctx.violations))
     ctx.cov.update({
         "evaluations": stats["evaluations"],
         "distinct_nontrivial": len(stats["nontrivial"]) + len(direct),
-        "rule": "every core word (22 unary forms, 15 binary, rot) applied to operands from a %d-value pool (boundary integers in each radix, strings with NUL/high bytes/repeats, nested and heterogeneous sequences, a closure, named constants) on stacks of depth 0-6 built by different push/pop/drop histories (plain pushes, overshoot-and-drop, backtick-bracket drop, swaps); each query on the hooked build (profile re-derived after every push/pop/drop) compared with the extracted model of the words and with the specification; string predicates also with Python bytes semantics; ?find/?starts/?ends on all haystacks of length <= 4 and needles of length <= 3 over two symbols, as sequences and as strings, against list semantics" % len(pool),
+        "rule": "every core word (22 unary forms, 15 binary, rot) applied to operands from a %d-value pool (boundary integers in each radix, strings with NUL/high bytes/repeats, nested and heterogeneous sequences, a closure, named constants) on stacks of depth 0-6 built by different push/pop/drop histories (plain pushes, overshoot-and-drop, backtick-bracket drop, swaps); each query on the hooked build (profile re-derived after every push/pop/drop) compared with the extracted model of the words and with the specification; string predicates also with Python bytes semantics; ?find/?starts/?ends on all haystacks of length <= 4 and needles of length <= 3 over two symbols, as sequences and as strings, against list semantics, also over alphabets of equal-numbered constants of different domains and needles in another radix" % len(pool),
         "samples": [progs[0], progs[len(progs) // 2], progs[-1]],
         "traces_validated_against_impl": stats["evaluations"],
         "direct_bytestring_checks": len(direct),
